@@ -283,6 +283,51 @@ pub fn run(ctx: &mut Ctx) {
             ctx.mark_partial("factorial-table-seam: quick tier keeps n in 1..=12, N-12..=N and multiples of 7 (all n in the thorough tier)");
         }
     }
+    // ---- the same seam and one large population for OMIM and ORPHA (the three kinds have separate entry points)
+    {
+        let l = 174usize;
+        let ont = staircase(l, &[Kind::Omim, Kind::Orpha]);
+        for kind in [Kind::Omim, Kind::Orpha] {
+            ctx.space(&format!("exact/{}/factorial-table-seam", kind.name()), &format!("N in 169..=172, n in {{1, 2, 3, N/2, N-2, N-1, N}}{}, all window starts; records 1..{l}", if thorough { " and every 5th n" } else { "" }));
+            for big_n in 169..=172usize {
+                for n in 1..=big_n {
+                    let keep = n <= 3 || n + 2 >= big_n || n == big_n / 2 || (thorough && n % 5 == 0);
+                    if !keep || !ctx.take() {
+                        continue;
+                    }
+                    ctx.state();
+                    let starts: Vec<usize> = (1..=big_n - n + 1).rev().collect();
+                    check_n_n(ctx, &ont, l, kind, big_n, n, &starts, &exact, true);
+                    if big_n == 171 && n == 2 {
+                        ctx.sample(|| json!({"kind": kind.name(), "N": big_n, "n": n, "window_starts": starts.len(), "records": l}));
+                    }
+                }
+            }
+            ctx.mark_partial("factorial-table-seam for OMIM / ORPHA: a listed subset of n by design");
+        }
+        let big_n = 400usize;
+        let lref = LogDomain::new(big_n + 1);
+        let mut ont: Option<Ontology> = None;
+        for kind in [Kind::Omim, Kind::Orpha] {
+            ctx.space(&format!("logref/{}/N={big_n}", kind.name()), &format!("N = {big_n}, n in {{2, N/4, N/2, N-1}}, window starts {{last, 1/2, n, 1}}; records 1..{big_n}; log-domain reference, rtol 1e-6"));
+            for n in [2usize, big_n / 4, big_n / 2, big_n - 1] {
+                if !ctx.take() {
+                    continue;
+                }
+                ctx.state();
+                if ont.is_none() {
+                    ont = Some(staircase(big_n, &[Kind::Omim, Kind::Orpha]));
+                }
+                let last = big_n - n + 1;
+                let mut starts = vec![last, (last + 1) / 2, n.min(last), 1];
+                starts.sort_unstable_by(|a, b| b.cmp(a));
+                starts.dedup();
+                check_n_n(ctx, ont.as_ref().unwrap(), big_n, kind, big_n, n, &starts, &lref, false);
+                ctx.sample(|| json!({"kind": kind.name(), "N": big_n, "n": n, "window_starts": starts}));
+            }
+            ctx.mark_partial("large-population slices are a listed subset of (n, s) by design");
+        }
+    }
     // ---- large populations: log-domain reference
     {
         let sizes: Vec<usize> = if thorough { vec![400, 1000, 2000, 3000] } else { vec![400, 2000] };
